@@ -472,30 +472,32 @@ def canon (lbl : β → Str) (t : Triple β) : Tree :=
 def expect (lbl : β → Str) (ts : List (Triple β)) : List Tr := ts.map (Triple.map (sigma lbl))
 
 /-- does the block, standing among the children of an element whose child context is `C` (empty list
-    mapping, counter `n`), denote exactly `exp`, leaving list mapping and counter as they were? -/
+    mapping, counter `n`), denote exactly `exp`, leaving the list mapping as it was? (The counter may move: a
+    hanging @rel makes a blank node even when no triple ever mentions it.) -/
 def validBlock (C : Ctx) (n : Nat) (blk : Tree) (exp : List Tr) : Bool :=
   let r := procNode C [] n blk
-  r.out.isPerm exp && r.lm == [] && r.next == n
+  r.out.isPerm exp && r.lm == []
 
 variable {κ : Type}
 
-/-- cover the triples by blocks -/
-def writeBlocks (lbl : β → Str) (C : Ctx) (n : Nat) (take : κ → Nat) (build : κ → List (Triple β) → Tree) :
-    List κ → List (Triple β) → List Tree
-  | _, [] => []
-  | [], t :: ts => canon lbl t :: writeBlocks lbl C n take build [] ts
-  | c :: cs, t :: ts =>
-    let k := take c
-    let cand := build c ((t :: ts).take (k + 1))
-    if validBlock C n cand (expect lbl ((t :: ts).take (k + 1))) then
-      cand :: writeBlocks lbl C n take build cs (ts.drop k)
-    else canon lbl t :: writeBlocks lbl C n take build cs ts
-termination_by _ ts => ts.length
+/-- cover the triples by blocks: choice `c` proposes markup for the next `take c + 1` triples; a proposal that
+    does not validate is replaced by the canonical blocks of the same triples. `n`: the processor's blank-node
+    counter when it reaches the block. -/
+def writeBlocks (lbl : β → Str) (C : Ctx) (take : κ → Nat) (build : κ → List (Triple β) → Tree) :
+    Nat → List κ → List (Triple β) → List Tree
+  | _, _, [] => []
+  | n, [], t :: ts => canon lbl t :: writeBlocks lbl C take build n [] ts
+  | n, c :: cs, t :: ts =>
+    let chunk := (t :: ts).take (take c + 1)
+    let cand := build c chunk
+    if validBlock C n cand (expect lbl chunk) then
+      cand :: writeBlocks lbl C take build (procNode C [] n cand).next cs (ts.drop (take c))
+    else
+      chunk.map (canon lbl) ++ writeBlocks lbl C take build n cs (ts.drop (take c))
+termination_by _ _ ts => ts.length
 decreasing_by
   all_goals simp_wf
-  · omega
-  · have := List.length_drop (i := take c) (l := ts); omega
-  · omega
+  all_goals (try (have := List.length_drop (i := take c) (l := ts))) <;> omega
 
 /-- what the writer requires of a subject / object IRI, a predicate and a literal in the environment `E` of
     the blocks: written out in full they denote themselves -/
@@ -552,7 +554,7 @@ def write (base : Str) (prefixes terms : List (Str × Str)) (lbl : β → Str) (
     (build : Ctx → κ → List (Triple β) → Tree) (sk : Skel) (cs : List κ) (g : List (Triple β)) : Tree :=
   let sk' := if expressible (bodyCtx base prefixes terms sk).env g then sk else {}
   let C := bodyCtx base prefixes terms sk'
-  docOf sk' (writeBlocks lbl C 0 take (build C) cs g)
+  docOf sk' (writeBlocks lbl C take (build C) 0 cs g)
 
 end Writer
 
